@@ -89,6 +89,12 @@ def gen(rng, tier):
                     yield {"family": "shutdown.%s.%s" % (name, activity), "backend": be, "phase": "shutdown", "script": name, "activity": activity, "rep": rep}
             for k in range(2):
                 yield {"family": "state", "backend": be, "phase": "state", "script": "complete", "activity": "two_conns", "rep": rep * 10 + k}
+            # ... behind the middlewares the package ships (they wrap the whole application, its lifespan scope included)
+            for mw in ("proxyfix", "http_to_https"):
+                if mw == "proxyfix":  # (the redirect middleware answers plain-http requests itself: no request reaches the application)
+                    yield {"family": "state.behind-" + mw, "backend": be, "phase": "state", "script": "complete", "activity": "two_conns", "rep": rep, "mw": mw}
+                yield {"family": "startup.failed.behind-" + mw, "backend": be, "phase": "startup", "script": "failed", "activity": "hammer", "rep": rep, "mw": mw}
+                yield {"family": "shutdown.complete.behind-" + mw, "backend": be, "phase": "shutdown", "script": "complete", "activity": "none", "rep": rep, "mw": mw}
             # ... also when the lifespan application stored nothing, or there is no lifespan support at all
             yield {"family": "state.empty", "backend": be, "phase": "state", "script": "complete_empty", "activity": "two_conns", "rep": rep}
             yield {"family": "state.no-lifespan", "backend": be, "phase": "state", "script": "raise_before_receive", "activity": "two_conns", "rep": rep}
@@ -265,6 +271,7 @@ def run_one(case, tally):
     if case.get("queue1"):
         cfg["max_app_queue_size"] = 1
     h = ServeHarness(be, cfg, apps)
+    h.middleware = case.get("mw")
     served = []
     try:
         h.start()
@@ -343,7 +350,14 @@ def run_one(case, tally):
 
     ls_start = first(lambda e: e[2] == "app" and e[3] == "start" and e[4]["scope"].get("type") == "lifespan")
     if ls_start is None:
-        tally.inconclusive["lifespan-app-not-started"] += 1
+        took = [e for e in ev if (e[2] == "net" and e[3] == "accept") or (e[2] == "app" and e[3] == "start" and e[4]["scope"].get("type") == "http")]
+        if took:
+            # connections were taken on although the application was never handed its lifespan scope (nothing it could complete or fail)
+            tally.clause("order")
+            findings.append({"clause": "order", "sig": "C14.order/served-without-lifespan-scope" + ("/behind-" + case["mw"] if case.get("mw") else ""), "backend": be,
+                             "detail": "%s: %d connections/requests were taken on and the application never saw a lifespan scope (%s)" % (be, len(took), case["family"])})
+        else:
+            tally.inconclusive["lifespan-app-not-started"] += 1
         return findings, [None]
     ls_inst = ls_start[4]["inst"]
     # the instant serving may begin: startup.complete sent, or the lifespan application raised
